@@ -92,6 +92,14 @@ def evolution_schemas(deep: bool = False) -> List[G.Schema]:
                      G.Field("many", 4, G.TArray(G.TRef(solo), 3, True)), G.Field("after2", 5, G.TInt(9)),
                      G.Field("fixed", 6, G.TArray(G.TRef(solo), 2, False)), G.Field("after3", 7, G.TUint(4))]
     out.append(mark(G.Schema("emptyolder", [solo, keeper])))
+    # sibling arrays of one message that differ ONLY in the extensible mark (whatever capacity the older version had, a
+    # non-extensible sibling of the same element type and capacity precedes it): each keeps its own layout
+    route = G.MsgDef("Route", False)
+    route.fields = [G.Field("sa", 1, G.TArray(G.TByte(), 1, False)), G.Field("sb", 2, G.TArray(G.TByte(), 2, False)),
+                    G.Field("sc", 3, G.TArray(G.TByte(), 3, False)), G.Field("via", 4, G.TArray(G.TByte(), 4, True)), G.Field("port", 5, G.TUint(8)),
+                    G.Field("wa", 6, G.TArray(G.TUint(13), 1, False)), G.Field("wb", 7, G.TArray(G.TUint(13), 2, False)),
+                    G.Field("wx", 8, G.TArray(G.TUint(13), 3, True)), G.Field("seq", 9, G.TUint(16))]
+    out.append(mark(G.Schema("siblings", [route])))
     # a size / capacity prefix at every odd bit offset r whose value needs more than 16 - r bits
     for r in range(1 if deep else 5, 8):  # small r = long messages: thorough tier only
         n = (1 << (16 - r)) // 8  # bytes: the message then has 2^(16-r) + 8 payload bits
